@@ -7,7 +7,8 @@
        UpdateActiveMode / ClearActiveMode) has succeeded (lemma C19_changed_meaning);
      - every operation is one atomic step (the model mutex), so a concurrent execution is a
        schedule over whole operations (theorems C19_concurrent_is_sequential, C19_concurrent_invariants). *)
-From SC Require Import Base.Prelude Electric.Model Electric.ModelProofs Electric.C19Judge Electric.JudgeProofs.
+From SC Require Import Base.Prelude Electric.Model Electric.ModelProofs Electric.C19Judge Electric.JudgeProofs
+  Electric.ConcStreamProofs Electric.LockDefs Electric.Fine Gen.ElectricLocks Electric.FineProofs.
 
 (* 1. at most one mode is marked normal, after any sequence of operations *)
 Theorem C19_at_most_one_normal : forall initial ops, wf_initial initial ->
@@ -134,16 +135,97 @@ Theorem C19_step_ok_model : forall s now o, Inv s ->
 Proof. exact step_ok_model. Qed.
 Print Assumptions C19_step_ok_model.
 
-(* ... hence every guarded sequential history that the model reproduces satisfies C19_ok: within
-   the guard a predicate failure always comes with a model mismatch (verdict 3, never 2).
-   Partial: stated for sequential histories (KSeq); for the concurrent and stream cases the
-   corresponding statement (soundness of the linearization search and of the event replay) is not
-   proved, C19_ok there is evaluated on the observation only. *)
-Theorem C19_judge_sound_partial : forall initial o0 steps,
-  C19_guard (KSeq initial o0 steps) = true -> agrees (KSeq initial o0 steps) = true ->
-  C19_ok (KSeq initial o0 steps) = true.
-Proof. exact judge_sound_seq. Qed.
-Print Assumptions C19_judge_sound_partial.
+(* ... hence every guarded history that the model reproduces satisfies C19_ok, for every kind of
+   case: sequential histories (replay), concurrent histories (the linearization search: every
+   configuration it visits is a model state reached by an interleaving that respects the observed
+   results, so the quiescent state it accepts satisfies the invariants, and a successful activating
+   call forces [changed]), and stream histories (the events the model predicts rebuild exactly the
+   model's listing after every write, so a subscriber never sees two normal modes and the last
+   active value it was sent names a mode it knows).  Within the guard a predicate failure always
+   comes with a model mismatch (verdict 3, never 2). *)
+Theorem C19_judge_sound : forall c, C19_guard c = true -> agrees c = true -> C19_ok c = true.
+Proof. exact judge_sound. Qed.
+Print Assumptions C19_judge_sound.
+
+Theorem C19_judge_never_2 : forall c, judge c <> 2.
+Proof. exact judge_never_2. Qed.
+
+(* the stream replay, for all histories: the events predicted for a history rebuild the model's
+   final listing, every intermediate view has at most one normal mode, and the last active value
+   sent is the final active value *)
+Theorem C19_streams_follow_model : forall steps s, Inv s ->
+  let me := fst (predict s (active s) steps) in
+  let ae := snd (predict s (active s) steps) in
+  views_ok (modes s) me = true /\
+  fold_left apply_event me (modes s) = modes (run s steps) /\
+  lastd ae (active s) = active (run s steps) /\
+  (ae <> [] -> changed (run s steps) = true).
+Proof. intros steps s I. apply (predict_sound steps s (active s) I eq_refl). Qed.
+Print Assumptions C19_streams_follow_model.
+
+(* ---- atomicity of the Model methods, from the source ----
+   Gen/ElectricLocks.v is generated on every run from model.go / model_server.go /
+   memory_settings.go / model_opts.go.  Over the whole generated table: every exported method that
+   writes modes/activeMode makes all of its resource calls with Model.mu write-locked, read-only
+   methods make a single resource call or hold the read lock; every rpc is one call of one Model
+   method; WithClock is the only option that sets the clock that stamps StartTime. *)
+Theorem C19_lock_table : 
+  forallb atomic_ok (filter mexported model_methods) = true /\
+  list_eqb meth_eqb (filter mexported model_methods) expected_exported = true /\
+  list_eqb srv_eqb server_methods expected_servers = true /\
+  forallb (fun s => Nat.leb (List.length (scalls s)) 1) server_methods = true /\
+  map oname (filter (fun r => str_in "clock" (owrites r)) model_options) = ["WithClock"%string] /\
+  list_eqb optrow_eqb model_options expected_options = true.
+Proof.
+  split; [exact table_atomic|]. split; [exact table_exported|]. split; [exact table_servers|].
+  split; [exact servers_one_call|]. split; [exact only_withclock_sets_clock|]. exact (proj1 table_options).
+Qed.
+Print Assumptions C19_lock_table.
+
+(* every operation of the model runs an exported method of the table that holds the write lock
+   around all of its calls; its program of resource calls (Electric/Fine.v) ends in the state and
+   with the result of the atomic step, making only calls the source of that method makes, in order *)
+Theorem C19_op_locked : forall o,
+  match find_meth (op_method o) model_methods with
+  | Some m => mexported m = true /\ atomic_ok m = true /\ forallb (fun c => lk_eqb (clk c) LX) (mcalls m) = true
+  | None => False
+  end.
+Proof. exact op_method_locked. Qed.
+Theorem C19_programs_are_steps : forall now o s, exists tr,
+  runs (prog_of now o) s tr (fst (step s now o)) (snd (step s now o)) /\
+  subseq tr (method_calls (op_method o)) = true.
+Proof. exact prog_correct. Qed.
+Print Assumptions C19_programs_are_steps.
+
+(* threads interleaving at the granularity of single resource calls, with Model.mu as a mutex:
+   every such schedule is a schedule of whole operations (the atomic-step assumption of
+   C19_concurrent_is_sequential, proved from the lock discipline) ... *)
+Theorem C19_fine_grained_is_atomic : forall fsched threads s0,
+  let c := frun fsched (finit threads s0) in
+  exists sched,
+    map pending (fths c) = fst (crun sched (threads, s0)) /\
+    match fowner c with
+    | None => fstate c = run_sched sched threads s0
+    | Some i => exists p r tr rs, nth_error (fths c) i = Some (TIn p r) /\
+                                  runs p (fstate c) tr (run_sched sched threads s0) rs
+    end.
+Proof. exact fine_is_coarse. Qed.
+Print Assumptions C19_fine_grained_is_atomic.
+
+(* ... so the invariants hold whenever no call is in progress, whatever the interleaving *)
+Theorem C19_fine_grained_invariants : forall initial fsched threads, wf_initial initial ->
+  let c := frun fsched (finit threads (init_state initial)) in
+  fowner c = None -> Inv (fstate c).
+Proof. exact fine_invariants. Qed.
+Print Assumptions C19_fine_grained_invariants.
+
+(* non-vacuity of the lock: the same two threads without the mutex delete the active mode *)
+Example C19_mutex_needed :
+  let c := frun_gen false [0; 1; 0; 1; 0; 1; 0; 1]%nat (finit race_threads (init_state race_initial)) in
+  changed (fstate c) = true /\ has (mid (active (fstate c))) (modes (fstate c)) = false /\
+  let c' := frun [0; 1; 0; 1; 0; 1; 0; 1; 1; 1; 1]%nat (finit race_threads (init_state race_initial)) in
+  fowner c' = None /\ has (mid (active (fstate c'))) (modes (fstate c')) = true.
+Proof. exact mutex_needed. Qed.
 
 (* the defects of the pinned commit, kept as theorems about the old definitions *)
 Theorem C19_at_most_one_normal_v0_refuted :
